@@ -49,8 +49,10 @@ pub fn which() -> BoxedStrategy<Which> {
 }
 
 /// Small pools of names so that repeats, case twins and pattern/literal pairs occur.
-pub const NAME_POOL: [&str; 24] = [
+pub const NAME_POOL: [&str; 32] = [
     "a", "b", "A", "foo", "Foo", "FOO", "foo*", "*.c", "*.C", "f?o", "[ab]", "[a-c]x", "x", "x*", "data.bin", "DATA.BIN", "a.b", "*", "?", "[!a]*", "dir/sub", "dir/*", "*/x", "héllo",
+    // no ASCII letter at all (case folding must not depend on ASCII letters)
+    "МОСКВА", "москва", "ÀÉÎ*", "àéî*", "123", "*.[0-9]", "_-.", "日本",
 ];
 
 #[derive(Debug, Clone, Copy, PartialEq, Eq)]
@@ -103,7 +105,7 @@ pub fn esc(all: bool) -> BoxedStrategy<Esc> {
         4 => prop::sample::select(v),
         1 => (1u16..128).prop_filter("U+001E is the frame separator of the output protocol", |v| *v != 0x1e).prop_map(Esc::Ascii),
         // code points that are special to the Scheme reader, to `format`, or to find's own format language
-        2 => prop::sample::select(vec![34u16, 92, 126, 37, 40, 41, 59, 35, 39, 10, 9, 13, 1, 127, 48, 65]).prop_map(Esc::Ascii),
+        2 => prop::sample::select(vec![34u16, 92, 126, 37, 40, 41, 59, 35, 39, 10, 9, 13, 1, 127, 48, 65, 0]).prop_map(Esc::Ascii),
     ]
     .boxed()
 }
@@ -309,6 +311,10 @@ pub fn text_string() -> BoxedStrategy<String> {
         4 => user_string(StrKind::Name),
         2 => user_string(StrKind::Ident),
         2 => prop::sample::select(vec!["a b", "x)y", "it's", "say \"hi\"", "(", ")", "-print", "-o", "!", ",", "a\tb", "two  blanks", "a\nb", "'", "\"", "é x", "-", "%", "a(b", "$HOME", "~", ";#"]).prop_map(|s| s.to_string()),
+        // the same words with different blanks inside (a cache keyed on collapsed blanks would confuse them)
+        1 => prop::sample::select(vec!["a  b", "a   b", "a \tb", "two blanks", "two\tblanks", "a\n\nb", " a b", "a b "]).prop_map(|s| s.to_string()),
+        // characters that Unicode calls white space but that are not blanks of the command line
+        1 => prop::sample::select(vec!["a\u{a0}b", "x\u{3000}y", "p\u{2028}q", "v\u{b}t", "f\u{c}f", "n\u{85}l", "résumé\u{a0}2024", "\u{2003}"]).prop_map(|s| s.to_string()),
         1 => "[ -~]{1,8}",
     ]
     .prop_filter("representable as an argument word", |s| crate::render::representable(s))
